@@ -30,6 +30,7 @@ class Verifier(Interp):
         self.old_heap = None
         self.inline_stack = []
         self.nondet = []   # fresh symbols standing for nondeterministic sources
+        self._enum_cache = {}
 
     # ================================================================= spec formulas
     def parse(self, text):
@@ -47,6 +48,12 @@ class Verifier(Interp):
                 return FImp(g, self.formula(node.args[1]))
             if fn == "all" and len(node.args) == 1 and isinstance(node.args[0], ast.GeneratorExp):
                 return self.forall_formula(node.args[0])
+            if fn == "any" and len(node.args) == 1 and isinstance(node.args[0], ast.GeneratorExp):
+                fa = self.forall_formula(node.args[0])
+                if isinstance(fa, FAll) and isinstance(fa.body, FG):
+                    w = z3.Const(self.fresh_name("ex.w"), fa.vars[0].sort())
+                    return FAny([w], z3.substitute(fa.guard, (fa.vars[0], w)), z3.substitute(fa.body.b, (fa.vars[0], w)))
+                raise Unsupported("existential over a concrete or nested domain")
             if fn in self.reg.preds:
                 args = [self.ev(a) for a in node.args]
                 return self.pred_formula(fn, args)
@@ -470,6 +477,8 @@ class Verifier(Interp):
         bound = self.bind_args(fi, recv, args, kwargs, node)
         # dynamic dispatch on receiver objtype already done by find_method
         con = self.reg.contracts.get(fi.key)
+        if con is None:
+            con = self.find_variant(fi, bound)
         if con is not None and not self.spec_mode:
             return self.call_by_contract(fi, con, bound, node)
         if self.spec_mode and con is not None and con.pure:
@@ -477,6 +486,28 @@ class Verifier(Interp):
         if fi.key in self.inline_stack or len(self.inline_stack) > 6:
             raise Unsupported("recursive/deep call to %s without contract" % fi.key)
         return self.call_inline(fi, bound, node)
+
+    def find_variant(self, fi, bound):
+        """contracts registered as key@variant: pick the one whose declared object types fit the arguments"""
+        for k, c in self.reg.contracts.items():
+            if not k.startswith(fi.key + "@"):
+                continue
+            ok = True
+            for p, ty in c.types.items():
+                v = bound.get(p)
+                if isinstance(ty, Ty) and ty.kind == "obj" and isinstance(v, Ref) and v.ty.kind == "obj":
+                    if not self.is_subtype(self.st.heap[v.rid].cls, ty.args[0]):
+                        ok = False
+            if ok:
+                return c
+        return None
+
+    def is_subtype(self, a, b):
+        while a is not None:
+            if a == b:
+                return True
+            a = self.reg.objtypes[a].base
+        return False
 
     def call_inline(self, fi, bound, node):
         saved = (self.st.vars, self.module, self.cur_fi)
@@ -599,6 +630,10 @@ class Verifier(Interp):
         raise Unsupported("bit-vector op %s" % type(op).__name__)
 
     def equal(self, a, b):
+        if (isinstance(a, Ref) and a.ty.kind == "list") or (isinstance(b, Ref) and b.ty.kind == "list"):
+            sa, sb = lib.seq_of(self, a), lib.seq_of(self, b)
+            if sa is not None and sb is not None:
+                return sa.term == sb.term
         if lib.is_bv(a) or lib.is_bv(b):
             w = (a if lib.is_bv(a) else b).ty.args[0]
             return self.bv_term(a, w) == self.bv_term(b, w)
@@ -639,6 +674,28 @@ class Verifier(Interp):
         for loc in con.modifies:
             self.havoc_loc(loc, env)
         res = self.fresh(con.returns, "ret." + callee) if con.returns is not None else NoneV()
+        if con.pure and con.returns is not None and is_prim(con.returns):
+            # a pure function's result is a function of its arguments and the declared `reads`
+            flat = []
+            ok = True
+            for pn in [p.arg for p in fi.node.args.args]:
+                v = env.get(pn)
+                if isinstance(v, P):
+                    flat.append(v.term)
+                elif isinstance(v, (Ref, ClsV)):
+                    continue
+                else:
+                    ok = False
+            for r in con.reads:
+                rv = self.spec_eval(lambda: self.ev(self.parse(r)), env)
+                c = cell(self, rv)
+                if isinstance(c, P):
+                    flat.append(c.term)
+                else:
+                    ok = False
+            if ok:
+                f = uf("pure_" + callee, *[t.sort() for t in flat], sort_of(con.returns))
+                res = P(con.returns, f(*flat))
         env2 = dict(env)
         env2["result"] = res
         saved_old = self.old_heap
@@ -861,14 +918,69 @@ class Verifier(Interp):
         if isinstance(c, Special) and c.tag == "enumerate":
             n, at = self.iter_model(c.it, s)
             return n, (lambda k: TupV([P(INT, k), at(k)]))
+        if isinstance(c, Special) and c.tag == "mapitems":
+            E = self.map_enum(c.m)
+            return z3.Length(E), (lambda k: TupV([P(c.m.kt, E[k]), P(c.m.vt, z3.Select(c.m.val, E[k]))]))
+        if isinstance(c, Special) and c.tag == "genexp":
+            g = c.node
+            if len(g.generators) != 1:
+                raise Unsupported("nested generator")
+            gen = g.generators[0]
+            saved = self.st.vars
+            self.st.vars = dict(c.closure)
+            self.st.vars.update({k: v for k, v in saved.items() if k not in c.closure})
+            try:
+                src = self.ev(gen.iter)
+            finally:
+                self.st.vars = saved
+            n, at = self.iter_model(src, s)
+
+            def elem(k, _gen=gen, _g=g, _at=at):
+                # desugared filter: an element failing the `if` is skipped (continue)
+                self.assign(_gen.target, _at(k))
+                for cnd in _gen.ifs:
+                    self.want_truth = True
+                    try:
+                        cv = self.truth(self.ev(cnd))
+                    finally:
+                        self.want_truth = False
+                    if not self.decide(cv):
+                        raise ContinueSig()
+                return self.ev(_g.elt)
+            return n, elem
         if isinstance(c, Special) and c.tag in self.reg.iter_models:
             return self.reg.iter_models[c.tag](self, c, s)
         raise Unsupported("loop over %r" % (c,))
+
+    def map_enum(self, m):
+        """dict iteration order (assumed E-dict): a sequence enumerating each key exactly once."""
+        key = ("enum", m.dom.get_id())
+        cache = self.__dict__.setdefault("_enum_cache", {})
+        if key in cache:
+            return cache[key]
+        self.used_assumptions.add("E-dict-iteration: items()/keys() enumerate each key of the dict exactly once")
+        ks = sort_of(m.kt)
+        E = z3.Const(self.fresh_name("enum"), z3.SeqSort(ks))
+        idx = z3.Function(self.fresh_name("enum.idx"), ks, z3.IntSort())
+        i = z3.Int(self.fresh_name("enum.i"))
+        k = z3.Const(self.fresh_name("enum.k"), ks)
+        self.st.schemas.append(Schema("enum.sound", [i], z3.Implies(
+            z3.And(i >= 0, i < z3.Length(E)), z3.And(z3.Select(m.dom, E[i]), idx(E[i]) == i)), triggers=[[E[i]]]))
+        self.st.schemas.append(Schema("enum.complete", [k], z3.Implies(
+            z3.Select(m.dom, k), z3.And(idx(k) >= 0, idx(k) < z3.Length(E), E[idx(k)] == k))))
+        if m.size is not None:
+            self.st.pc.append(z3.Length(E) == m.size)
+        self.last_enum = P(SeqT(m.kt), E)
+        cache[key] = E
+        self.enum_terms = getattr(self, "enum_terms", {})
+        self.enum_terms[m.dom.get_id()] = E
+        return E
 
     def exec_for_invariant(self, s, it, inv):
         tnames = sorted(x.id for x in ast.walk(s.target) if isinstance(x, ast.Name))
         if sorted(inv.targets) != tnames:
             raise ContractMismatch("loop targets %r do not match contract %r" % (tnames, inv.targets))
+        self.last_enum = None
         n, at = self.iter_model(it, s)
         ordn = self.loop_ordinal(s)
         name = "%s#loop%d" % (self.cur_func, ordn)
@@ -876,6 +988,8 @@ class Verifier(Interp):
         # --- init
         def inv_formula(kterm):
             env = {kname: P(INT, kterm), "_n": P(INT, n)}
+            if getattr(self, "last_enum", None) is not None:
+                env["ENUM"] = self.last_enum
             return self.spec_eval(lambda: FAnd([self.formula(c) for c in inv.invariant],
                                                [str(i) for i in range(len(inv.invariant))]), env)
         self.prove(name + ".init", inv_formula(zint(0)), meta={"kind": "loop-init"})
@@ -895,8 +1009,8 @@ class Verifier(Interp):
             self.st.pc.append(z3.And(k >= 0, k < n))
             self.st.vars[kname] = P(INT, k)   # ghost local: loop index, visible to inner invariants
             self.assume(inv_formula(k), "inv")
-            self.assign(s.target, at(k))
             try:
+                self.assign(s.target, at(k))
                 self.exec_block(s.body)
             except ContinueSig:
                 pass
@@ -909,6 +1023,39 @@ class Verifier(Interp):
             self.assume(inv_formula(n), "inv.exit")
             # loop target keeps last value (if n > 0); leave it havoc'd/undefined
             return
+
+    def resub_callable(self, pat, repl, text, node):
+        """`pattern.sub(f, text)`: loop over an arbitrary number of matches, cut by an invariant."""
+        con = self.cur_con_for_loops()
+        subs = [n for n in ast.walk(self.cur_fi.node) if isinstance(n, ast.Call) and isinstance(n.func, ast.Attribute)
+                and n.func.attr == "sub"]
+        subs.sort(key=lambda n: (n.lineno, n.col_offset))
+        ordn = [i for i, n in enumerate(subs) if n is node]
+        key = "sub%d" % (ordn[0] if ordn else 0)
+        inv = con.loops.get(key) if con is not None else None
+        if inv is None:
+            raise Unsupported("re.sub with a callable needs an invariant (%s)" % key)
+        name = "%s#%s" % (self.cur_func, key)
+
+        def inv_formula():
+            return self.spec_eval(lambda: FAnd([self.formula(c) for c in inv.invariant],
+                                               [str(i) for i in range(len(inv.invariant))]), {})
+        self.prove(name + ".init", inv_formula(), meta={"kind": "loop-init"})
+        for loc in inv.heap_modifies:
+            self.havoc_loc(loc, {})
+        if self.decide(z3.Bool(self.fresh_name(key + ".step"))):
+            self.assume(inv_formula(), "inv")
+            mt = z3.Const(self.fresh_name("match.text"), z3.StringSort())
+            from contracts.externals import _pattern_lang
+            lang = _pattern_lang(self, pat)
+            if lang is not None:
+                self.st.pc.append(z3.InRe(mt, lang))
+            m = Special("match", text=mt, groups={})
+            lib.apply(self, repl, [m], {}, node)
+            self.prove(name + ".step", inv_formula(), meta={"kind": "loop-step"})
+            raise PathCut()
+        self.assume(inv_formula(), "inv.exit")
+        return P(STR, z3.Const(self.fresh_name("resub"), z3.StringSort()))
 
     def havoc_like(self, old, hint):
         if isinstance(old, P):
